@@ -250,6 +250,10 @@ func tagVariants() []tagVariant {
 		{"unexported", "f", "", "", false},
 		{"required", "F", `json:"x" validate:"required"`, "x", true},
 		{"validate-only", "F", `validate:"required"`, "F", true},
+		// encoding/json: an empty name keeps the field name; "-," (with the comma) is the literal key "-"
+		{"json-options-without-name", "F", `json:",omitempty"`, "F", false},
+		{"json-dash-comma", "F", `json:"-,"`, "-", false},
+		{"json-dash-comma-required", "F", `json:"-,omitempty" validate:"required"`, "-", true},
 	}
 }
 
